@@ -5862,7 +5862,7 @@ impl BytecodeVM {
                         // Create a new object to store private methods
                         let guard = interp.heap.create_guard();
                         let new_obj = interp.create_object_raw(&guard);
-                        class_obj.borrow_mut().set_property(
+                        class_obj.borrow_mut().set_internal_slot(
                             private_methods_key.clone(),
                             JsValue::Object(new_obj.cheap_clone()),
                         );
